@@ -22,6 +22,12 @@ CHECKS = {
  "C09": dict(cat="exploration", sec="4 (C09)", technique="combinatorial + random generation of literals (type x value class x spelling x context), executed and compared with a documentation-derived spec function; exhaustive char byte sweep; lint attribution by source line",
    text="Integer literals of every integer type at and around every width boundary, in every spelling and in eight syntactic contexts, all 256 char values in three spellings, random byte strings in mixed escape spellings with adjacent-literal concatenation, and 56 malformed forms are compiled; representable values must be accepted without L1142 and print exactly their value, unrepresentable ones must raise L1142 on their line, malformed ones must be rejected with their documented code.",
    note="Trusted: the spec function in harness/src/c09.rs (value-based range rule). Printed values of out-of-range literals are not asserted."),
+ "C10": dict(cat="translation_validation", sec="4 (C10)", technique="generated constant expressions evaluated three ways (LLVM constant folding via `const`, run time via a local variable, reference interpreter); array-length and size-of templates against a layout model",
+   text="Random UB-free constant expressions are emitted both as `const` and as a local initialiser and printed; arrays whose length is a named constant expression are passed by name, view, slice pointer, pointer-to-array, row, member and constant through two call levels with |x| printed everywhere; random structs/words print |:S|, |:[k]S| at run time and through constants. All printed values must equal each other and the reference model.",
+   note="Trusted: reference interpreter and the C-layout model (integer alignment min(size,8)); under-filled words are not generated."),
+ "C12": dict(cat="exploration", sec="4 (C12)", technique="metamorphic testing: generated programs split over 2-4 files with computed pub/import closure, compiled in many file orders and compared with the single-file reference interpreter; negative mutants (missing pub / import); compile histories through one Compiler compared with compile-alone IR",
+   text="A split program must be accepted in every order of the file list and behave exactly like the single-file program; removing one needed `pub` or `import` (also when only transitively reachable) must be rejected with E401/E402/E405; a module's IR must be byte-identical whether it is compiled alone or after other unrelated modules.",
+   note="Trusted: the dependency closure in harness/src/modsplit.rs and the reference interpreter."),
  "C14": dict(cat="exploration", sec="4 (C14)", technique="exhaustive small-scope + grammar-based generation, three-way differential (alpha lexer / delta lexer / independent reference lexer), proptest choice-vector shrinking",
    text="Every string of length <= 3 (quick) / <= 4 (thorough) over a 48-symbol alphabet, plus generated token streams with generator-known expected tokens and planted malformed lexemes, are lexed by both real lexers and by an independent reference lexer; kinds, payloads, suffix types, byte spans, lines and error codes must agree. Held-on-everything-explored, exhaustive within the stated small scope.",
    note="Trusted: the reference lexer (harness/src/reflex.rs) as a reading of docs/errors.md; normalisations listed in the evidence assumptions."),
